@@ -344,8 +344,10 @@ func (d *Datastore) Subscribe(req *sdcpb.SubscribeRequest, stream sdcpb.DataServ
 	// start periodic gets, TODO: optimize using cache RPC
 	wg := new(sync.WaitGroup)
 	wg.Add(len(req.GetSubscription()))
-	errCh := make(chan error, 1)
+	// every goroutine reports at most one error: none of them may block on it, or wg.Wait never returns
+	errCh := make(chan error, len(req.GetSubscription()))
 	doneCh := make(chan struct{})
+	closeDone := new(sync.Once)
 	for _, subsc := range req.GetSubscription() {
 		go func(subsc *sdcpb.Subscription) {
 			ticker := time.NewTicker(time.Duration(subsc.GetSampleInterval()))
@@ -362,7 +364,7 @@ func (d *Datastore) Subscribe(req *sdcpb.SubscribeRequest, stream sdcpb.DataServ
 					err := d.doSubscribeOnce(ctx, subsc, stream)
 					if err != nil {
 						errCh <- err
-						close(doneCh)
+						closeDone.Do(func() { close(doneCh) })
 						return
 					}
 				}
